@@ -876,6 +876,324 @@ static void entries_body()
     mc::outcome(expect + (failmode ? "!" : ""));
 }
 
+// ------------------------------------------------------------------ (7) long: sizes around 2^7, 2^8 and beyond 2^16
+// A counter, length or size narrowed to 8 or 16 bits inside the engine is invisible below 128/256/65536.
+// Every dimension that is a count in the engine (string length, precision, width, zero fill, literal
+// run, number of directives, total output) is taken through {127,128,255,256,257,300,1000,70000}.
+static const int LONGN[8] = {127, 128, 255, 256, 257, 300, 1000, 70000};
+struct LOpt
+{
+    int kind, v; // 0 none, 1 literal, 2 '*'
+};
+static vector<LOpt> long_opts()
+{
+    vector<LOpt> o;
+    o.push_back({0, 0});
+    for (int v : LONGN)
+        o.push_back({1, v});
+    for (int v : LONGN)
+        o.push_back({2, v});
+    return o;
+}
+static void compare_long(const string &kind, const string &what, const Out &got, const Out &want)
+{
+    if (got.ret < 0 || (size_t)got.ret != got.emitted)
+        mc::violation("C06.long." + kind + ".count", "%s: returned %d but handed %zu characters to the callback (%d were due)", what.c_str(),
+                      got.ret, got.emitted, want.ret);
+    if (got.emitted != want.emitted || got.text != want.text)
+    {
+        size_t k = 0;
+        while (k < got.text.size() && k < want.text.size() && got.text[k] == want.text[k])
+            k++;
+        mc::violation("C06.long." + kind + ".text",
+                      "%s: %zu characters emitted, ISO C (glibc) gives %zu; first difference at offset %zu (got %s, want %s)", what.c_str(),
+                      got.emitted, want.emitted, k, vis(got.text.substr(k, 12)).c_str(), vis(want.text.substr(k, 12)).c_str());
+    }
+    mc::outcome(mc::fmt("%s:%zu", kind.c_str(), want.emitted));
+}
+static string pattern_text(size_t n, unsigned seed)
+{ // printable, no '%', position-dependent so that a dropped or repeated stretch shows
+    string t(n, ' ');
+    for (size_t i = 0; i < n; i++)
+        t[i] = (char)('A' + (i * 7 + i / 251 + seed) % 57 % 26 + ((i / 13) & 1) * 32);
+    return t;
+}
+struct LStr
+{
+    std::unique_ptr<guard::Region> r;
+    size_t len;
+    bool terminated;
+};
+static LStr &long_string(int li, bool term)
+{
+    static LStr tab[8][2];
+    LStr &s = tab[li][term];
+    if (!s.r)
+    {
+        s.len = (size_t)LONGN[li];
+        s.terminated = term;
+        s.r.reset(new guard::Region(s.len + (term ? 1 : 0), true, 'G'));
+        string t = pattern_text(s.len, (unsigned)li);
+        memcpy(s.r->p, t.data(), s.len);
+        if (term)
+            s.r->p[s.len] = 0;
+    }
+    return s;
+}
+static void long_strings_body()
+{
+    static vector<LOpt> O = long_opts();
+    int unit = mc::choose(8 * 2 * 2 * 2); // length x terminated x '-' x second string variant (short)
+    int li = unit % 8;
+    bool term = (unit / 8) % 2;
+    bool left = (unit / 16) % 2;
+    bool shortstr = (unit / 32) % 2; // a 3-character string in a long field, instead of the long string
+    int wi = mc::choose((int)O.size()), pi = mc::choose((int)O.size());
+    Dir d;
+    d.flags = left ? F_LEFT : 0;
+    d.conv = 's';
+    d.wkind = O[wi].kind;
+    d.w = O[wi].v;
+    d.pkind = O[pi].kind == 0 ? 0 : O[pi].kind + 1;
+    d.p = O[pi].v;
+    Args a;
+    string f = "[" + render(d, a) + "]";
+    LStr &s = long_string(li, term);
+    static const char three[] = "abc";
+    a.push_back(Arg::mkP(shortstr ? (const void *)three : (const void *)s.r->p));
+    mc::describe("format %s (width arg %d, precision arg %d), string of %zu bytes %s", vis(f).c_str(), d.w, d.p, shortstr ? (size_t)3 : s.len,
+                 shortstr ? "(plain)" : term ? "(NUL-terminated, then an inaccessible page)" : "(no terminator, then an inaccessible page)");
+    if (shortstr && (!term || li != 0))
+        return; // the short string exists once per (flag, width, precision)
+    if (!shortstr && !term && !(d.pkind && (size_t)d.p <= s.len))
+    {
+        mc::count("excluded_undefined_by_iso");
+        return;
+    }
+    mc::crash_context("C06.long.string.crash");
+    Out got, want;
+    bool ok = mc::guarded([&] { got = run_impl(f, a); });
+    if (!ok)
+    {
+        mc::violation("C06.long.string.overread", "format %s: the engine read past the %zu accessible bytes of the argument", vis(f).c_str(),
+                      s.len + (term ? 1 : 0));
+        return;
+    }
+    want = run_ref(f, a);
+    mc::crash_context("C06.harness");
+    compare_long("string", mc::fmt("format %s on a %zu-byte string", vis(f).c_str(), shortstr ? (size_t)3 : s.len), got, want);
+    mc::nontrivial(); // every case has a length, width or precision of at least 127 ... or is the plain baseline
+}
+static void long_integers_body()
+{
+    static vector<LOpt> O = long_opts();
+    static const struct
+    {
+        char conv;
+        const char *len;
+        long long v;
+        bool wide;
+    } IV[] = {{'d', "", 0, false}, {'d', "", -42, false}, {'x', "", 0xabc, false}, {'o', "ll", -1, true}, {'u', "l", 4294967296LL, true}, {'X', "hh", 0x1ff, false}};
+    static const unsigned FL[] = {0, F_LEFT, F_ZERO, F_PLUS | F_ZERO, F_ALT, F_ALT | F_ZERO, F_LEFT | F_ZERO};
+    const int NIV = sizeof IV / sizeof IV[0], NFL = sizeof FL / sizeof FL[0];
+    int unit = mc::choose(NIV * NFL);
+    int wi = mc::choose((int)O.size()), pi = mc::choose((int)O.size());
+    Dir d;
+    d.conv = IV[unit % NIV].conv;
+    d.len = IV[unit % NIV].len;
+    d.flags = FL[unit / NIV];
+    d.wkind = O[wi].kind;
+    d.w = O[wi].v;
+    d.pkind = O[pi].kind == 0 ? 0 : O[pi].kind + 1;
+    d.p = O[pi].v;
+    Args a;
+    string f = "<" + render(d, a) + ">";
+    a.push_back(IV[unit % NIV].wide ? Arg::mkL(IV[unit % NIV].v) : Arg::mkI((int)IV[unit % NIV].v));
+    mc::describe("format %s (width arg %d, precision arg %d) value %lld", vis(f).c_str(), d.w, d.p, IV[unit % NIV].v);
+    if (!flags_defined(d.flags, d.conv))
+    {
+        mc::count("excluded_undefined_by_iso");
+        return;
+    }
+    mc::crash_context("C06.long.integer.crash");
+    Out got = run_impl(f, a), want = run_ref(f, a);
+    mc::crash_context("C06.harness");
+    compare_long("integer", mc::fmt("format %s args [%s]", vis(f).c_str(), show_args(a).c_str()), got, want);
+    if (d.wkind || d.pkind)
+        mc::nontrivial();
+}
+static void long_chars_and_text_body()
+{
+    // %c in a long field; long runs of literal text before / between / after directives
+    int kind = mc::choose(2);
+    if (kind == 0)
+    {
+        int li = mc::choose(8), star = mc::choose(2), left = mc::choose(2), ch = mc::choose(3);
+        static const int CH[3] = {'A', 0, 0xE9};
+        Dir d;
+        d.conv = 'c';
+        d.flags = left ? F_LEFT : 0;
+        d.wkind = star ? 2 : 1;
+        d.w = LONGN[li];
+        Args a;
+        string f = "<" + render(d, a) + ">";
+        a.push_back(Arg::mkI(CH[ch]));
+        mc::describe("format %s (width arg %d) char %d", vis(f).c_str(), d.w, CH[ch]);
+        mc::crash_context("C06.long.char.crash");
+        Out got = run_impl(f, a), want = run_ref(f, a);
+        mc::crash_context("C06.harness");
+        compare_long("char", mc::fmt("format %s char %d", vis(f).c_str(), CH[ch]), got, want);
+        mc::nontrivial();
+    }
+    else
+    {
+        int li = mc::choose(8), place = mc::choose(4), hi = mc::choose(2);
+        string t = pattern_text((size_t)LONGN[li], 3);
+        if (hi)
+            for (size_t i = 5; i < t.size(); i += 97)
+                t[i] = (char)(0x80 + i % 127); // bytes above 0x7f in the literal run
+        string f;
+        Args a;
+        switch (place)
+        {
+        case 0:
+            f = t;
+            break;
+        case 1:
+            f = t + "%d";
+            a.push_back(Arg::mkI(-42));
+            break;
+        case 2:
+            f = "%lld" + t + "%s";
+            a.push_back(Arg::mkL(LLONG_MIN));
+            a.push_back(Arg::mkP("tail"));
+            break;
+        default:
+            f = "%c" + t + "%%" + t + "%x";
+            a.push_back(Arg::mkI('q'));
+            a.push_back(Arg::mkI(255));
+            break;
+        }
+        mc::describe("literal run of %d characters%s, placement %d, args [%s]", LONGN[li], hi ? " with bytes above 0x7f" : "", place,
+                     show_args(a).c_str());
+        mc::crash_context("C06.long.literal.crash");
+        Out got = run_impl(f, a), want = run_ref(f, a);
+        mc::crash_context("C06.harness");
+        compare_long("literal", mc::fmt("literal run of %d characters, placement %d", LONGN[li], place), got, want);
+        mc::nontrivial();
+    }
+}
+// formats with many directives (c06_dispatch.cpp): argument k is int, long long, char*, int(%c) for k%4 = 0..3
+Out run_impl300(const string &fmt);
+Out run_ref300(const string &fmt);
+static void long_directive_counts_body()
+{
+    static const int ND[] = {1, 4, 127, 128, 129, 255, 256, 257, 299, 300};
+    static const char *DEC[][4] = {{"%d", "%lld", "%s", "%c"},
+                                   {"%5d", "%-22lld", "%.2s", "%3c"},
+                                   {"%+.3d", "%#llx", "%12s", "%-2c"},
+                                   {"%*d", "%lld", "%s", "%c"}};
+    static const char *SEP[] = {"", " ", "%%", ", text "};
+    int ni = mc::choose(10), di = mc::choose(4), si = mc::choose(4);
+    string f;
+    for (int k = 0; k < ND[ni]; k++)
+    {
+        if (k)
+            f += SEP[si];
+        // decoration 3 uses '*': the int argument k supplies the width and the directive consumes argument k+1,
+        // so the conversion follows the type of the NEXT argument
+        if (di == 3 && k % 4 == 0 && k + 1 < ND[ni])
+        {
+            f += "%*lld";
+            k++;
+            continue;
+        }
+        f += DEC[di == 3 ? 0 : di][k % 4];
+    }
+    mc::describe("%d directives, decoration set %d, separator %s (format of %zu characters)", ND[ni], di, vis(SEP[si]).c_str(), f.size());
+    mc::crash_context("C06.long.directives.crash");
+    Out got = run_impl300(f), want = run_ref300(f);
+    mc::crash_context("C06.harness");
+    compare_long("directives", mc::fmt("%d directives, decoration set %d, separator %s", ND[ni], di, vis(SEP[si]).c_str()), got, want);
+    if (ND[ni] >= 127)
+        mc::nontrivial();
+}
+static void long_entries_body()
+{
+    static const char *ENT[] = {"sprintf", "vsprintf", "fdprintf", "vfdprintf", "snprintf"};
+    int which = mc::choose(5), fi = mc::choose(6), li = mc::choose(3);
+    static const int LEN[3] = {300, 65536, 70000};
+    int n = LEN[li];
+    string f;
+    Args a;
+    string big = pattern_text((size_t)n, 11);
+    switch (fi)
+    {
+    case 0:
+        f = "%" + std::to_string(n) + "d";
+        a.push_back(Arg::mkI(-7));
+        break;
+    case 1:
+        f = "%-*s|";
+        a.push_back(Arg::mkI(n));
+        a.push_back(Arg::mkP("left"));
+        break;
+    case 2:
+        f = "%s";
+        a.push_back(Arg::mkP(big.c_str()));
+        break;
+    case 3:
+        f = big;
+        break;
+    case 4:
+        f = "%." + std::to_string(n) + "x";
+        a.push_back(Arg::mkI(0xbeef));
+        break;
+    default:
+        f = "%d" + big + "%.*s";
+        a.push_back(Arg::mkI(1));
+        a.push_back(Arg::mkI(n));
+        a.push_back(Arg::mkP(big.c_str()));
+        break;
+    }
+    mc::describe("%s with format kind %d and a result of about %d characters", ENT[which], fi, n);
+    string expect = run_ref(f, a).text;
+    string e = ENT[which];
+    string what = mc::fmt("%s, format kind %d, %zu characters due", e.c_str(), fi, expect.size());
+    mc::crash_context("C06.long.entry.%s.crash", e.c_str());
+    bool fd = which == 2 || which == 3;
+    if (!fd)
+    {
+        size_t need = expect.size() + 1;
+        char *buf = (char *)malloc(need);
+        memset(buf, 0x5A, need);
+        int r = run_entry(which, buf, need, f.c_str(), a);
+        mc::crash_context("C06.harness");
+        if (r != (int)expect.size())
+            mc::violation("C06.long.entry." + e + ".retval", "%s: returned %d", what.c_str(), r);
+        else if (memcmp(buf, expect.data(), expect.size()) != 0)
+            mc::violation("C06.long.entry." + e + ".text", "%s: buffer differs from the reference text", what.c_str());
+        else if (buf[expect.size()] != 0)
+            mc::violation("C06.long.entry." + e + ".unterminated", "%s: no terminator at buf[%zu]", what.c_str(), expect.size());
+        free(buf);
+    }
+    else
+    {
+        g_fd_out.clear();
+        g_fd_calls = 0;
+        g_fd_fail_at = -1;
+        int r = run_entry(which, nullptr, 0, f.c_str(), a);
+        mc::crash_context("C06.harness");
+        if (r != (int)expect.size())
+            mc::violation("C06.long.entry." + e + ".retval", "%s: returned %d", what.c_str(), r);
+        if (g_fd_out != expect)
+            mc::violation("C06.long.entry." + e + ".text", "%s: %zu characters written, they differ from the reference text", what.c_str(),
+                          g_fd_out.size());
+    }
+    mc::nontrivial();
+    mc::outcome(mc::fmt("entry:%zu", expect.size()));
+}
+
 MC_INIT
 {
     for (unsigned f = 0; f < 32; f++)
@@ -894,5 +1212,10 @@ MC_INIT
     mc::add_check("pointers", pointers_body);
     mc::add_check("mixed_formats", mixed_body);
     mc::add_check("libc_entries", entries_body);
+    mc::add_check("long_strings", long_strings_body);
+    mc::add_check("long_integers", long_integers_body);
+    mc::add_check("long_chars_and_text", long_chars_and_text_body);
+    mc::add_check("long_directive_counts", long_directive_counts_body);
+    mc::add_check("long_entries", long_entries_body);
 }
 MC_MAIN
